@@ -471,17 +471,13 @@ class Queue(Greenlet):
             self._pool_spawn('relay', self._attempt, id, envelope, attempts)
 
     def _check_ready(self, now):
-        last_i = 0
-        for i, entry in enumerate(self.queued):
-            timestamp, entry_id = entry
-            if now >= timestamp:
-                self._pool_spawn('store', self._dequeue, entry_id)
-                last_i = i+1
-            else:
-                break
-        if last_i > 0:
-            self.queued = self.queued[last_i:]
-            self.queued_ids = set([id for _, id in self.queued])
+        # Spawning into a bounded store pool may yield; always work on the
+        # live timetable so that entries added meanwhile are neither skipped
+        # nor sliced away.
+        while self.queued and now >= self.queued[0][0]:
+            timestamp, entry_id = self.queued.pop(0)
+            self.queued_ids.discard(entry_id)
+            self._pool_spawn('store', self._dequeue, entry_id)
 
     def _wait_store(self):
         while True:
